@@ -158,7 +158,7 @@ resultBreak:
 			case valueResult:
 				switch value.evaluateBreakContinue(labels) {
 				case resultReturn:
-					return value
+					return value.withCompletionValue(result)
 				case resultBreak:
 					result = value.completionValueOr(result)
 					break resultBreak
@@ -236,7 +236,7 @@ func (rt *runtime) cmplEvaluateNodeForInStatement(node *nodeForInStatement) Valu
 				case valueResult:
 					switch value.evaluateBreakContinue(labels) {
 					case resultReturn:
-						return value
+						return value.withCompletionValue(result)
 					case resultBreak:
 						return value.completionValueOr(result)
 					case resultContinue:
@@ -294,7 +294,7 @@ resultBreak:
 			case valueResult:
 				switch value.evaluateBreakContinue(labels) {
 				case resultReturn:
-					return value
+					return value.withCompletionValue(result)
 				case resultBreak:
 					result = value.completionValueOr(result)
 					break resultBreak
@@ -354,7 +354,7 @@ func (rt *runtime) cmplEvaluateNodeSwitchStatement(node *nodeSwitchStatement) Va
 				case valueResult:
 					switch value.evaluateBreak(labels) {
 					case resultReturn:
-						return value
+						return value.withCompletionValue(result)
 					case resultBreak:
 						return value.completionValueOr(result)
 					}
@@ -425,7 +425,7 @@ resultBreakContinue:
 			case valueResult:
 				switch value.evaluateBreakContinue(labels) {
 				case resultReturn:
-					return value
+					return value.withCompletionValue(result)
 				case resultBreak:
 					result = value.completionValueOr(result)
 					break resultBreakContinue
